@@ -588,6 +588,59 @@ func runMirror(c *Ctx) {
 					c.R.Add("COPY", "Copy|inner", name, p.InstrPos(m.in), false, "Copy never writes into an existing inner map", "inner-map write present")
 				}
 			}
+			// constructor form: the copy is assembled from separately built maps (`derive(clone(out), clone(in), hash)`)
+			nOuter := 0
+			for _, m := range muts {
+				if m.ref.level == "outer" || m.ref.level == "hash" {
+					nOuter++
+				}
+			}
+			if nOuter == 0 {
+				fields := c.graphLiteralFields(f)
+				for _, fld := range []string{gf.out, gf.in} {
+					role := "out"
+					if fld == gf.in {
+						role = "in"
+					}
+					okc, why := false, "field not set from a deep copy of the receiver's "+role+" map"
+					if cl, ok := fields[fld].(*ssa.Call); ok && isAdjacencyCloner(p, cl.Common().StaticCallee()) && len(cl.Common().Args) == 1 {
+						if src, ok := core.AsFieldLoad(cl.Common().Args[0]); ok && src.Owner == "graph.Graph" && src.Field == fld && core.Strip(src.Base) == recv {
+							okc, why = true, "deep copy (fresh outer and inner maps) of the receiver's "+role+" map"
+						}
+					}
+					c.R.Add("COPY", "Copy|outer-"+role, name, p.Pos(f.Pos()), okc,
+						"the copy's "+role+" map receives, per key, a fresh inner map filled entry by entry from the receiver's "+role+" inner map of that key", why)
+				}
+				okh, whyh := false, "vertex table not set from a fresh copy of the receiver's"
+				if hm, ok := fields[gf.hash].(*ssa.MakeMap); ok {
+					okh = true
+					nUp := 0
+					for _, ref := range *hm.Referrers() {
+						switch x := ref.(type) {
+						case *ssa.MapUpdate:
+							nUp++
+							n, isNext := extractNext(x.Key)
+							if !isNext || !sameNext(x.Key, n, 1) || !sameNext(x.Value, n, 2) {
+								okh = false
+								continue
+							}
+							rg, isR := n.Iter.(*ssa.Range)
+							if !isR {
+								okh = false
+								continue
+							}
+							if src, ok := core.AsFieldLoad(rg.X); !ok || src.Field != gf.hash || core.Strip(src.Base) != recv {
+								okh = false
+							}
+						}
+					}
+					okh = okh && nUp > 0
+					if okh {
+						whyh = "fresh map filled from the receiver's vertex table"
+					}
+				}
+				c.R.Add("COPY", "Copy|hash", name, p.Pos(f.Pos()), okh, "hash entries are stored into the fresh copy only", whyh)
+			}
 			// returns the fresh graph
 			for _, r := range core.Returns(f) {
 				ok := len(r.Results) == 1 && p.FreshIn(r.Results[0]) && core.Root(r.Results[0]) != recv
@@ -598,29 +651,15 @@ func runMirror(c *Ctx) {
 		// ---- Reverse
 		if isMethod && short == "Reverse" {
 			got := map[string]string{}
-			// (also through a private constructor helper that receives the three maps)
-			p.RegionInstrs(f, func(in ssa.Instruction) {
-				st, ok := in.(*ssa.Store)
-				if !ok {
-					return
+			for field, v := range c.graphLiteralFields(f) {
+				got[field] = "?"
+				if v == nil {
+					continue
 				}
-				fr, ok := core.AsFieldAddr(st.Addr)
-				if !ok || fr.Owner != "graph.Graph" || !p.FreshIn(st.Addr) {
-					return
+				if src, ok := core.AsFieldLoad(v); ok && src.Owner == "graph.Graph" && core.Strip(src.Base) == recv {
+					got[field] = src.Field
 				}
-				srcs := p.ISources(st.Val)
-				if len(srcs) != 1 {
-					got[fr.Field] = "?"
-					return
-				}
-				if src, ok := core.AsFieldLoad(srcs[0]); ok && src.Owner == "graph.Graph" && core.Strip(src.Base) == recv {
-					if prev, dup := got[fr.Field]; dup && prev != src.Field {
-						got[fr.Field] = "?"
-						return
-					}
-					got[fr.Field] = src.Field
-				}
-			})
+			}
 			c.R.Add("REVERSE", "Reverse|out", name, p.Pos(f.Pos()), got[gf.out] == gf.in, "reversed view's out-adjacency is the receiver's in-adjacency (shared, not copied)", "out <- "+got[gf.out])
 			c.R.Add("REVERSE", "Reverse|in", name, p.Pos(f.Pos()), got[gf.in] == gf.out, "reversed view's in-adjacency is the receiver's out-adjacency (shared, not copied)", "in <- "+got[gf.in])
 			c.R.Add("REVERSE", "Reverse|hash", name, p.Pos(f.Pos()), got[gf.hash] == gf.hash, "reversed view shares the vertex table", "hash <- "+got[gf.hash])
@@ -681,6 +720,130 @@ func runMirror(c *Ctx) {
 			c.R.Add("PURITY", "init", name, p.Pos(f.Pos()), ok, "init only allocates maps that are still nil", fmt.Sprintf("ok=%v", ok))
 		}
 	}
+}
+
+// graphLiteralFields: the values stored into the fields of the fresh Graph that f builds — in f itself or in a private
+// constructor helper f calls, whose parameters are read as the arguments of f's own call (the helper may be shared with
+// other functions that hand in different maps). A field stored more than once, or with an unresolvable value, maps to nil.
+func (c *Ctx) graphLiteralFields(f *ssa.Function) map[string]ssa.Value {
+	p := c.P
+	got := map[string]ssa.Value{}
+	record := func(fn *ssa.Function, bind func(ssa.Value) ssa.Value) {
+		core.Instrs(fn, func(in ssa.Instruction) {
+			st, ok := in.(*ssa.Store)
+			if !ok {
+				return
+			}
+			fr, ok := core.AsFieldAddr(st.Addr)
+			if !ok || fr.Owner != "graph.Graph" || !p.FreshIn(st.Addr) {
+				return
+			}
+			if _, dup := got[fr.Field]; dup {
+				got[fr.Field] = nil
+				return
+			}
+			got[fr.Field] = bind(st.Val)
+		})
+	}
+	record(f, func(v ssa.Value) ssa.Value { return v })
+	for _, ci := range core.Calls(f) {
+		h := ci.Common().StaticCallee()
+		if !p.PrivateHelper(h) {
+			continue
+		}
+		site := ci
+		record(h, func(v ssa.Value) ssa.Value {
+			if prm, ok := core.Strip(v).(*ssa.Parameter); ok && prm.Parent() == h {
+				for i, q := range h.Params {
+					if q == prm && i < len(site.Common().Args) {
+						return site.Common().Args[i]
+					}
+				}
+			}
+			return v
+		})
+	}
+	return got
+}
+
+// isAdjacencyCloner: h(src) returns one freshly made outer map that receives, for every key of src, a freshly made
+// inner map filled entry by entry from src's inner map of that key.
+func isAdjacencyCloner(p *core.Prog, h *ssa.Function) bool {
+	if h == nil || !p.InTarget(h) || len(h.Params) != 1 || h.Signature.Results().Len() != 1 {
+		return false
+	}
+	var dst *ssa.MakeMap
+	for _, r := range core.Returns(h) {
+		m, ok := r.Results[0].(*ssa.MakeMap)
+		if !ok || (dst != nil && dst != m) {
+			return false
+		}
+		dst = m
+	}
+	if dst == nil {
+		return false
+	}
+	outerOK, innerOK, bad := false, false, false
+	core.Instrs(h, func(in ssa.Instruction) {
+		mu, ok := in.(*ssa.MapUpdate)
+		if !ok {
+			if ci, ok := in.(ssa.CallInstruction); ok && core.CalleeName(ci.Common()) == "builtin.delete" {
+				bad = true
+			}
+			return
+		}
+		switch {
+		case mu.Map == ssa.Value(dst):
+			// dst[k] = inner, k the key of a range over the parameter, inner a fresh map
+			inner, isMk := mu.Value.(*ssa.MakeMap)
+			n, isNext := extractNext(mu.Key)
+			if !isMk || !isNext || !sameNext(mu.Key, n, 1) {
+				bad = true
+				return
+			}
+			if rg, ok := n.Iter.(*ssa.Range); !ok || rg.X != ssa.Value(h.Params[0]) {
+				bad = true
+				return
+			}
+			_ = inner
+			outerOK = true
+		default:
+			// inner[k2] = v2 with (k2, v2) ranging over the outer range's value
+			inner, isMk := mu.Map.(*ssa.MakeMap)
+			n2, isNext := extractNext(mu.Key)
+			if !isMk || !isNext || !sameNext(mu.Key, n2, 1) || !sameNext(mu.Value, n2, 2) {
+				bad = true
+				return
+			}
+			rg2, ok := n2.Iter.(*ssa.Range)
+			if !ok {
+				bad = true
+				return
+			}
+			n1, isNext1 := extractNext(rg2.X)
+			if !isNext1 || !sameNext(rg2.X, n1, 2) {
+				bad = true
+				return
+			}
+			if rg1, ok := n1.Iter.(*ssa.Range); !ok || rg1.X != ssa.Value(h.Params[0]) {
+				bad = true
+				return
+			}
+			// that inner map is the one stored under the outer key
+			stored := false
+			for _, ref := range *inner.Referrers() {
+				if mu2, ok := ref.(*ssa.MapUpdate); ok && mu2.Map == ssa.Value(dst) && mu2.Value == ssa.Value(inner) {
+					stored = true
+				}
+			}
+			if !stored {
+				bad = true
+				return
+			}
+			innerOK = true
+		}
+	})
+	return outerOK && innerOK && !bad
 }
 
 // absentGuard: the creation of an adjacency entry (mutation m on an outer map) happens only when the outer map has
